@@ -630,7 +630,9 @@ class Block(composites.Composite):
         """
         # this caching requires that you clear the cache every time you adjust anything
         # including temperature and dimensions.
-        area = self._getCached("area")
+        # cold and hot areas differ: each is cached under its own name
+        cacheName = "areaCold" if cold else "area"
+        area = self._getCached(cacheName)
         if area:
             return area
 
@@ -644,7 +646,7 @@ class Block(composites.Composite):
         # clipped by symmetry lines
         area = fullArea / self.getSymmetryFactor()
 
-        self._setCache("area", area)
+        self._setCache(cacheName, area)
         return area
 
     def getVolume(self):
